@@ -9,6 +9,8 @@ var checks = map[string]func(*Ctx){
 	"C02": runC02,
 	"C03": runC03,
 	"C05": runC05,
+	"C06": runC06,
+	"C11": runC11,
 }
 
 func main() {
@@ -33,6 +35,7 @@ func main() {
 		tier = "quick"
 	}
 	c := NewCtx(id, tier)
+	c.ClearReplays()
 	f(c)
 	// every check ends in c.Finish, which exits
 	fmt.Println("check returned without verdict")
